@@ -60,7 +60,13 @@ def run_case(ctx, kind_, idx):
     loose = 100.0 if strat == "CubicSplineRFA" else 1.0
     try:
         with fp_watch(ctx):
-            xs, ys = R.run(strat, x, y_arg, n, kw, rng=rng)
+            with fp_watch(ctx) as fpw:
+                xs, ys = R.run(strat, x, y_arg, n, kw, rng=rng)
+            if fpw.tripped:
+                # a caller running with warnings as errors / numpy.seterr(all="raise") would have got no series at all
+                ctx.judged()
+                ctx.violation("floating_point_warning_on_ordinary_input", cid, {"warnings": fpw.tripped[:4], "case": info})
+                return
             if R.well_formed(xs, ys, len(x), n):
                 ctx.judged()
                 ctx.violation("malformed_output", cid, {"problem": R.well_formed(xs, ys, len(x), n), "case": info})
